@@ -174,7 +174,13 @@ func (s *fileSeedSegment) WriteInto(dst *os.File, offset, length, blocksize uint
 	if !s.canReflink || s.chunks[0].Start%blocksize != offset%blocksize {
 		return s.copy(dst, src, s.chunks[0].Start, length, offset)
 	}
-	return s.clone(dst, src, s.chunks[0].Start, length, offset, blocksize)
+	copied, cloned, err := s.clone(dst, src, s.chunks[0].Start, length, offset, blocksize)
+	if err != nil {
+		// Cloning is an optimization. If the filesystem refuses it, for example for
+		// overlapping ranges when the seed is the target file itself, copy instead
+		return s.copy(dst, src, s.chunks[0].Start, length, offset)
+	}
+	return copied, cloned, nil
 }
 
 // Validate compares all chunks in this slice of the seed index to the underlying data
